@@ -456,6 +456,12 @@ func (h constHandler) ServeHTTP(w http.ResponseWriter, _ *http.Request) {
 
 // serve sends q through wrapped handler hh (already wrapped), returns the response.
 func serveWith(hh http.Handler, q Req, preset []HV, invoked *int) (resp Resp) {
+	return serveDerived(hh, q, preset, invoked, nil)
+}
+
+// serveDerived: as serveWith; derive (if not nil) turns the built request into the one that
+// is actually sent (a sub-request that inherits the context of a request in flight, say).
+func serveDerived(hh http.Handler, q Req, preset []HV, invoked *int, derive func(*http.Request) *http.Request) (resp Resp) {
 	w := newRec(preset)
 	defer func() {
 		if p := recover(); p != nil {
@@ -466,7 +472,11 @@ func serveWith(hh http.Handler, q Req, preset []HV, invoked *int) (resp Resp) {
 	w.outerAppends = q.Shape%nShapes == 9
 	lastWriterNote = ""
 	betweenSteps("a request")
-	hh.ServeHTTP(w, q.build())
+	r := q.build()
+	if derive != nil {
+		r = derive(r)
+	}
+	hh.ServeHTTP(w, r)
 	fp := w.snapFP
 	if !w.snapped {
 		fp = headerFP(w.h)
@@ -479,6 +489,7 @@ type mwServer struct {
 	h       http.Handler
 	invoked int
 	quiet   bool
+	preset  []HV // response headers an outer layer has set before the chain runs (do)
 }
 
 // doLazy serves q with a handler that writes nothing and returns the live
@@ -502,7 +513,7 @@ func newServer(wrap func(http.Handler) http.Handler) *mwServer {
 	s.h = wrap(constHandler{&s.invoked, &s.quiet})
 	return s
 }
-func (s *mwServer) do(q Req) Resp               { return serveWith(s.h, q, nil, &s.invoked) }
+func (s *mwServer) do(q Req) Resp               { return serveWith(s.h, q, s.preset, &s.invoked) }
 func (s *mwServer) doPreset(q Req, p []HV) Resp { return serveWith(s.h, q, p, &s.invoked) }
 
 // ---- bystander request headers
